@@ -1,6 +1,6 @@
 /-
 Helper lemmas for engine `heights` (C15), part 4:
-* how one step can change the highest record (`HiRel`),
+* how one step can change the stored records (`Mono`, `StoreMono`: the full clause 3),
 * the vocabulary of clause 1: which op starts consensus for which slot, which heights a node has "seen"
   (started or learned decided since the last restart, plus the stored highest at restart), and the invariants
   that relate the seen heights to the controller height and the instance container.
@@ -9,196 +9,149 @@ import Ssv.Proofs.HeightsStep
 
 namespace Ssv.Heights
 
-/-! ## one step and the highest record -/
+/-! ## one step and the stored records: FULL clause 3, from any state -/
 
-/-- how the highest record may change in one step from state `s`: not at all, to a higher height, or — at the same
-    height — to a certificate with strictly more signers than `LongestUniqueSignersForRoundAndRoot` finds in the
-    bucket of its own (round, root) of the live instance `i` (which carries the old record `a`) -/
-def HiRel (s : State) (a b : Stored) : Prop :=
-  b = a ∨ a.inst.height < b.inst.height ∨
-  (a.inst.height = b.inst.height ∧ ∃ i, find s.c.insts a.inst.height = some i ∧ Carries i a ∧
-      longest i.commits b.cert.round b.cert.root < b.cert.signers.length)
+/-- the record is unchanged in (height, certificate), or replaced by one of a higher height, or — at the same
+    height — by a certificate with more signers -/
+def Mono (a b : Stored) : Prop :=
+  (b.inst.height = a.inst.height ∧ b.cert = a.cert) ∨ a.inst.height < b.inst.height ∨
+  (a.inst.height = b.inst.height ∧ a.cert.signers.length < b.cert.signers.length)
 
-theorem prevDecided_of_live {c : Ctrl} {st : Store} {a : Stored} (inv : CInv c st) (ha : st.highest = some a)
-    (hh : a.inst.height = c.height) : prevDecidedOf c st c.height = true := by
-  obtain ⟨i, rest, hl, hi, hc⟩ := inv.live a ha hh
-  have hf : find c.insts c.height = some i := by rw [hl, find_cons]; simp [hi]
-  unfold prevDecidedOf
-  rw [instanceForHeight_mem hf]
-  exact hc.1
+theorem Mono.refl (a : Stored) : Mono a a := Or.inl ⟨rfl, rfl⟩
 
-theorem uponDecided_highest {c : Ctrl} {st : Store} {a : Stored} (inv : CInv c st) (ha : st.highest = some a)
-    (h : Nat) (m : Msg) :
-    ∃ b, (uponDecided c st h m).2.1.highest = some b ∧
-      (b = a ∨ (b.inst.height = h ∧ b.cert = m ∧ c.height ≤ h ∧
-        (a.inst.height < h ∨ (a.inst.height = h ∧ ∃ i, find c.insts h = some i ∧ Carries i a ∧
-            longest i.commits m.round m.root < m.signers.length)))) := by
-  have he := uponDecided_eq c st h m
-  simp only at he
-  rw [he]
+theorem Mono.trans {a b c : Stored} (h1 : Mono a b) (h2 : Mono b c) : Mono a c := by
+  unfold Mono at *
+  rcases h1 with ⟨e1, c1⟩ | l1 | ⟨e1, s1⟩ <;> rcases h2 with ⟨e2, c2⟩ | l2 | ⟨e2, s2⟩
+  · exact Or.inl ⟨by omega, by rw [c2, c1]⟩
+  · exact Or.inr (Or.inl (by omega))
+  · exact Or.inr (Or.inr ⟨by omega, by rw [← c1]; exact s2⟩)
+  · exact Or.inr (Or.inl (by omega))
+  · exact Or.inr (Or.inl (by omega))
+  · exact Or.inr (Or.inl (by omega))
+  · exact Or.inr (Or.inr ⟨by omega, by rw [c2]; exact s1⟩)
+  · exact Or.inr (Or.inl (by omega))
+  · exact Or.inr (Or.inr ⟨by omega, by omega⟩)
+
+theorem Mono.height_le {a b : Stored} (h : Mono a b) : a.inst.height ≤ b.inst.height := by
+  rcases h with ⟨h, _⟩ | h | ⟨h, _⟩ <;> omega
+
+theorem Mono.of_replaces {a b : Stored} (h : replaces (some a) b = true) : Mono a b := by
+  rcases replaces_some h with h | h
+  · exact Or.inr (Or.inl h)
+  · exact Or.inr (Or.inr h)
+
+/-- both keys at once: what the store holds as highest and under every height -/
+def StoreMono (st st' : Store) : Prop :=
+  (∀ a, st.highest = some a → ∃ b, st'.highest = some b ∧ Mono a b) ∧
+  (∀ h a, histGet st.hist h = some a → ∃ b, histGet st'.hist h = some b ∧ Mono a b)
+
+theorem StoreMono.refl (st : Store) : StoreMono st st :=
+  ⟨fun a ha => ⟨a, ha, Mono.refl a⟩, fun _ a ha => ⟨a, ha, Mono.refl a⟩⟩
+
+theorem StoreMono.trans {a b c : Store} (h1 : StoreMono a b) (h2 : StoreMono b c) : StoreMono a c := by
+  refine ⟨?_, ?_⟩
+  · intro x hx
+    obtain ⟨y, hy, m1⟩ := h1.1 x hx
+    obtain ⟨z, hz, m2⟩ := h2.1 y hy
+    exact ⟨z, hz, m1.trans m2⟩
+  · intro h x hx
+    obtain ⟨y, hy, m1⟩ := h1.2 h x hx
+    obtain ⟨z, hz, m2⟩ := h2.2 h y hy
+    exact ⟨z, hz, m1.trans m2⟩
+
+theorem storeSave_mono (st : Store) (rec : Stored) (th ah : Bool) : StoreMono st (storeSave st rec th ah) := by
+  unfold storeSave
   simp only
-  cases hs : (decidedBranch c st h m).2
-  · exact ⟨a, by simpa using ha, Or.inl rfl⟩
-  · simp only [if_true]
-    rcases saveFound_highest { c with insts := (decidedBranch c st h m).1, height := if c.height < h then h else c.height }
-        st h m with hu | ⟨hle, i', hf', hw⟩
-    · exact ⟨a, by rw [hu]; exact ha, Or.inl rfl⟩
-    · refine ⟨_, hw, Or.inr ⟨(find_some_height hf' : i'.height = h), rfl, ?_, ?_⟩⟩
-      · simp only at hle; split at hle <;> omega
-      · have hch : c.height ≤ h := by simp only at hle; split at hle <;> omega
-        have hale := inv.le a ha
-        by_cases hlt : a.inst.height < h
-        · exact Or.inl hlt
-        · right
-          have hah : a.inst.height = h := by omega
-          have hac : a.inst.height = c.height := by omega
-          obtain ⟨i0, rest, hl, hi0, hc⟩ := inv.live a ha hac
-          have hf : find c.insts h = some i0 := by rw [hl, find_cons]; simp [hi0]; omega
-          refine ⟨hah, i0, hf, hc, ?_⟩
-          rcases decidedBranch_mem (st := st) (m := m) hf with ⟨_, h2, _⟩ | ⟨_, _, _, _, _, _, hcase⟩
-          · rw [h2] at hs; cases hs
-          · rcases hcase with ⟨hnd, _⟩ | ⟨_, _, _, hlong⟩
-            · rw [hc.1] at hnd; cases hnd
-            · exact hlong
+  refine ⟨?_, ?_⟩
+  · intro a ha
+    cases hc : (ah && replaces st.highest { rec with inst := { trim rec.inst with stopped := false } })
+    · exact ⟨a, by simpa using ha, Mono.refl a⟩
+    · simp only [Bool.and_eq_true] at hc
+      rw [ha] at hc
+      exact ⟨_, by simp, Mono.of_replaces hc.2⟩
+  · intro h a ha
+    cases hc : (th && replaces (histGet st.hist rec.inst.height) { rec with inst := { trim rec.inst with stopped := false } })
+    · have : (th && replaces (histGet st.hist (trim rec.inst).height) { rec with inst := { trim rec.inst with stopped := false } }) = false := hc
+      simp only [this]
+      exact ⟨a, by simpa using ha, Mono.refl a⟩
+    · have hc' : (th && replaces (histGet st.hist (trim rec.inst).height) { rec with inst := { trim rec.inst with stopped := false } }) = true := hc
+      simp only [hc', if_true]
+      rw [histGet_histPut]
+      by_cases hh : h = rec.inst.height
+      · subst hh
+        simp only [Bool.and_eq_true] at hc
+        rw [ha] at hc
+        exact ⟨_, by simp [trim_height], Mono.of_replaces hc.2⟩
+      · exact ⟨a, by simp [trim_height, hh]; exact ha, Mono.refl a⟩
 
-theorem processMsg_highest {c : Ctrl} {st : Store} {a : Stored} (inv : CInv c st) (ha : st.highest = some a)
-    (q h : Nat) (m : Msg) (ok : Bool) :
-    ∃ b, (processMsg q c st h m ok).2.1.highest = some b ∧
-      (b = a ∨ (b.inst.height = h ∧ b.cert = m ∧ c.height ≤ h ∧
-        (a.inst.height < h ∨ (a.inst.height = h ∧ ∃ i, find c.insts h = some i ∧ Carries i a ∧
-            longest i.commits m.round m.root < m.signers.length)))) := by
-  rcases processMsg_cases q c st h m ok with he | ⟨_, _, he⟩
-  · rw [he]; exact ⟨a, ha, Or.inl rfl⟩
-  · rw [he]; exact uponDecided_highest inv ha h m
+theorem saveFound_mono (c : Ctrl) (st : Store) (h : Nat) (m : Msg) : StoreMono st (saveFound c st h m) := by
+  unfold saveFound
+  cases find c.insts h with
+  | none => exact StoreMono.refl st
+  | some i =>
+    simp only
+    unfold saveInstance
+    simp only
+    cases c.full <;> cases decide (c.height ≤ i.height)
+    · exact StoreMono.refl st
+    · exact storeSave_mono st ⟨i, m⟩ false true
+    · exact storeSave_mono st ⟨i, m⟩ true false
+    · exact storeSave_mono st ⟨i, m⟩ true true
 
-theorem step_highest {s : State} (inv : SInv s) {a : Stored} (ha : s.s.highest = some a) (op : Op) :
-    ∃ b, (step s op).1.s.highest = some b ∧ HiRel s a b := by
-  unfold SInv at inv
-  -- repackaging of the `processMsg_highest` alternatives as `HiRel`
-  have pack : ∀ (h : Nat) (m : Msg) (b : Stored),
-      (b = a ∨ (b.inst.height = h ∧ b.cert = m ∧ s.c.height ≤ h ∧
-        (a.inst.height < h ∨ (a.inst.height = h ∧ ∃ i, find s.c.insts h = some i ∧ Carries i a ∧
-            longest i.commits m.round m.root < m.signers.length)))) → HiRel s a b := by
-    intro h m b hb
-    rcases hb with rfl | ⟨hbh, hbm, _, hlt | ⟨hah, i, hf, hc, hl⟩⟩
-    · exact Or.inl rfl
-    · exact Or.inr (Or.inl (by omega))
-    · exact Or.inr (Or.inr ⟨by omega, i, by rw [hah]; exact hf, hc, by rw [hbm]; exact hl⟩)
+theorem ite_saveFound_mono (cnd : Bool) (c : Ctrl) (st : Store) (h : Nat) (m : Msg) :
+    StoreMono st (if cnd = true then saveFound c st h m else st) := by
+  cases cnd
+  · exact StoreMono.refl st
+  · exact saveFound_mono c st h m
+
+theorem processMsg_mono (q : Nat) (c : Ctrl) (st : Store) (h : Nat) (m : Msg) (ok : Bool) :
+    StoreMono st (processMsg q c st h m ok).2.1 := by
+  unfold processMsg
+  split
+  · exact StoreMono.refl st
+  · split
+    · exact StoreMono.refl st
+    · unfold uponDecided
+      simp only
+      split
+      · exact saveFound_mono _ st h m
+      · exact StoreMono.refl st
+
+/-- FULL clause 3 for one step, from ANY state: every stored record (highest, and historical per height) is kept, or
+    replaced by a record of a higher height, or — at the same height — by a certificate with more signers -/
+theorem step_store_mono (s : State) (op : Op) : StoreMono s.s (step s op).1.s := by
   rcases step_cs s op with ⟨_, hs⟩ | ⟨_, _, _, _, hs⟩ | ⟨h, m, ok, _, hs⟩ | ⟨h, m, ok, _, hs⟩ | ⟨_, _, _, _, _, hs⟩ |
     ⟨h, m, ok, _, _, hs⟩ | ⟨root, vc, _, hs⟩ | ⟨_, _, hs⟩ | ⟨_, _, _, hs⟩
-  · exact ⟨a, by rw [hs]; exact ha, Or.inl rfl⟩
-  · exact ⟨a, by rw [hs]; exact ha, Or.inl rfl⟩
-  · obtain ⟨b, hb, hrel⟩ := processMsg_highest inv ha s.q h m ok
-    exact ⟨b, by rw [hs]; exact hb, pack h m b hrel⟩
+  · rw [hs]; exact StoreMono.refl _
+  · rw [hs]; exact StoreMono.refl _
+  · rw [hs]; exact processMsg_mono _ _ _ _ _ _
   · rw [hs]
     unfold decidedViaRunner
     simp only
-    obtain ⟨b1, hb1, hrel1⟩ := processMsg_highest inv ha s.q h m ok
-    cases hsv : runnerSaves s.r h (processMsg s.q s.c s.s h m ok).2.2
-    · exact ⟨b1, by simpa using hb1, pack h m b1 hrel1⟩
-    · simp only [if_true]
-      have hnew : (processMsg s.q s.c s.s h m ok).2.2 = .new := by
-        unfold runnerSaves at hsv
-        simp only [Bool.and_eq_true] at hsv
-        simpa using hsv.1.1.1
-      rcases processMsg_cases s.q s.c s.s h m ok with he | ⟨_, hq, he⟩
-      · rw [he] at hnew; cases hnew
-      · have hpd : prevDecidedOf s.c s.s h = false := by
-          rw [he, uponDecided_out] at hnew
-          cases hpd : prevDecidedOf s.c s.s h
-          · rfl
-          · simp [hpd] at hnew
-        -- a `.new` never touches the height of the stored highest: that instance is live and decided
-        have hne : a.inst.height = h → s.c.height ≤ h → False := by
-          intro hah hch
-          have hale := inv.le a ha
-          have hac : a.inst.height = s.c.height := by omega
-          have := prevDecided_of_live inv ha hac
-          rw [← hac, hah, hpd] at this
-          cases this
-        rcases saveFound_highest
-            (if s.q ≤ m.signers.length then compactAt (processMsg s.q s.c s.s h m ok).1 h else (processMsg s.q s.c s.s h m ok).1)
-            (processMsg s.q s.c s.s h m ok).2.1 h m with hu | ⟨hle, i', hf', hw⟩
-        · refine ⟨b1, by rw [hu]; exact hb1, pack h m b1 hrel1⟩
-        · refine ⟨_, hw, Or.inr (Or.inl ?_)⟩
-          show a.inst.height < i'.height
-          rw [find_some_height hf']
-          have hch : s.c.height ≤ h := by
-            simp only [hq, if_true, compactAt_height] at hle
-            rw [he] at hle
-            exact Nat.le_trans (uponDecided_height_ge s.c s.s h m).2 hle
-          have hale := inv.le a ha
-          by_cases hah : a.inst.height = h
-          · exact absurd hch (fun hc => hne hah hc)
-          · omega
-  · exact ⟨a, by rw [hs]; exact ha, Or.inl rfl⟩
-  · -- the runner path while the first write fails: only the runner's own save can write, and only after a `.new`
-    rw [hs]
+    exact (processMsg_mono s.q s.c s.s h m ok).trans (ite_saveFound_mono _ _ _ _ _)
+  · rw [hs]; exact StoreMono.refl _
+  · rw [hs]
     unfold decidedViaRunnerSF
     simp only
-    cases hsv : (runnerSaves s.r h (processMsg s.q s.c s.s h m ok).2.2 &&
-        (ok && decide (s.q ≤ m.signers.length) && firstSaveCalled s.c s.s h m))
-    · exact ⟨a, by simpa using ha, Or.inl rfl⟩
-    · simp only [if_true]
-      simp only [Bool.and_eq_true] at hsv
-      obtain ⟨hq, hpd, he, _, _⟩ := fresh_of_new (runnerSaves_new hsv.1)
-      rcases saveFound_highest
-          (if s.q ≤ m.signers.length then compactAt (processMsg s.q s.c s.s h m ok).1 h else (processMsg s.q s.c s.s h m ok).1)
-          s.s h m with hu | ⟨hle, i', hf', hw⟩
-      · exact ⟨a, by rw [hu]; exact ha, Or.inl rfl⟩
-      · refine ⟨_, hw, Or.inr (Or.inl ?_)⟩
-        show a.inst.height < i'.height
-        rw [find_some_height hf']
-        have hch : s.c.height ≤ h := by
-          simp only [hq, if_true, compactAt_height] at hle
-          exact Nat.le_trans (processMsg_height_ge _ _ _ _ _ _) hle
-        have hale := inv.le a ha
-        by_cases hah : a.inst.height = h
-        · have hac : a.inst.height = s.c.height := by omega
-          have := prevDecided_of_live inv ha hac
-          rw [← hac, hah, hpd] at this
-          cases this
-        · omega
-  · -- commits: the fresh running instance decides and is saved
-    rw [hs]
-    rcases commitsStep_cases s root vc with ⟨h0, _⟩ | ⟨rh, i, _, hf, hnd, _, _, hs'⟩
-    · rw [h0]; exact ⟨a, ha, Or.inl rfl⟩
-    · rw [hs']
-      rcases saveFound_highest
-          { s.c with insts := replaceInst { i with decided := true, commits := singles s.q root } s.c.insts } s.s rh
-          ⟨Gen.heights_FirstRound, root, List.range' 1 s.q⟩ with hu | ⟨hle, i', hf', hw⟩
-      · exact ⟨a, by rw [hu]; exact ha, Or.inl rfl⟩
-      · refine ⟨_, hw, Or.inr (Or.inl ?_)⟩
-        show a.inst.height < i'.height
-        rw [find_some_height hf']
-        have hale := inv.le a ha
-        have hle' : s.c.height ≤ rh := hle
-        by_cases hah : a.inst.height = rh
-        · -- the stored highest would be live and decided at rh, but the instance there is not decided
-          obtain ⟨i0, rest, hl, hi0, hcar⟩ := inv.live a ha (by omega)
-          have : i = i0 := by
-            rw [hl, find_cons] at hf
-            have : i0.height = rh := by omega
-            simp [this] at hf
-            exact hf.symm
-          subst this
-          rw [hcar.1] at hnd; cases hnd
-        · omega
-  · exact ⟨a, by rw [hs]; exact ha, Or.inl rfl⟩
-  · exact ⟨a, by rw [hs]; exact ha, Or.inl rfl⟩
+    exact ite_saveFound_mono _ _ _ _ _
+  · rw [hs]
+    rcases commitsStep_cases s root vc with ⟨h0, _⟩ | ⟨rh, i, _, _, _, _, _, _, ⟨_, hs'⟩ | ⟨_, hs'⟩⟩
+    · rw [h0]; exact StoreMono.refl _
+    · rw [hs']; exact StoreMono.refl _
+    · rw [hs']; exact saveFound_mono _ _ _ _
+  · rw [hs]; exact StoreMono.refl _
+  · rw [hs]; exact StoreMono.refl _
 
-theorem HiRel.height_le {s : State} {a b : Stored} (h : HiRel s a b) : a.inst.height ≤ b.inst.height := by
-  rcases h with rfl | h | ⟨h, _⟩ <;> omega
+theorem run_store_mono (s : State) (ops : List Op) : StoreMono s.s (run s ops).s := by
+  induction ops generalizing s with
+  | nil => exact StoreMono.refl _
+  | cons op ops ih => exact (step_store_mono s op).trans (ih _)
 
 /-- the stored highest height never goes down along any history (restarts included), and is never lost -/
-theorem run_highest_mono {s : State} (inv : SInv s) {a : Stored} (ha : s.s.highest = some a) (ops : List Op) :
+theorem run_highest_mono {s : State} {a : Stored} (ha : s.s.highest = some a) (ops : List Op) :
     ∃ b, (run s ops).s.highest = some b ∧ a.inst.height ≤ b.inst.height := by
-  induction ops generalizing s a with
-  | nil => exact ⟨a, ha, Nat.le_refl _⟩
-  | cons op ops ih =>
-    obtain ⟨b, hb, hrel⟩ := step_highest inv ha op
-    obtain ⟨b', hb', hle⟩ := ih (inv.step op) hb
-    exact ⟨b', hb', Nat.le_trans hrel.height_le hle⟩
+  obtain ⟨b, hb, hm⟩ := (run_store_mono s ops).1 a ha
+  exact ⟨b, hb, hm.height_le⟩
 
 /-! ## clause 1 vocabulary -/
 
@@ -301,7 +254,7 @@ theorem step_height_mono (s : State) (op : Op) (hop : ∀ f, op ≠ .restart f) 
     · rw [compactAt_height]; exact processMsg_height_ge _ _ _ _ _ _
     · exact processMsg_height_ge _ _ _ _ _ _
   · rw [hc]
-    rcases commitsStep_cases s root vc with ⟨h0, _⟩ | ⟨_, _, _, _, _, _, hc', _⟩
+    rcases commitsStep_cases s root vc with ⟨h0, _⟩ | ⟨_, _, _, _, _, _, _, hc', _⟩
     · rw [h0]; exact Nat.le_refl _
     · rw [hc']; exact Nat.le_refl _
   · rw [hc, compactAt_height]; exact Nat.le_refl _
@@ -310,19 +263,6 @@ theorem step_height_mono (s : State) (op : Op) (hop : ∀ f, op ≠ .restart f) 
 /-! ## seen heights vs controller height (all nodes) -/
 
 def SeenLe (s : State) (seen : List Nat) : Prop := ∀ h ∈ seen, h ≤ s.c.height
-
-theorem loadHighest_some {c : Ctrl} {st : Store} {a : Stored} (ha : st.highest = some a) :
-    (loadHighest c st).1.height = a.inst.height ∧ (loadHighest c st).1.insts = [trim a.inst] ∧
-    (loadHighest c st).1.full = c.full ∧ (loadHighest c st).2 = some a := by
-  unfold loadHighest
-  rw [ha]
-  exact ⟨rfl, rfl, rfl, rfl⟩
-
-theorem loadHighest_none {c : Ctrl} {st : Store} (ha : st.highest = none) :
-    (loadHighest c st).1 = c ∧ (loadHighest c st).2 = none := by
-  unfold loadHighest
-  rw [ha]
-  exact ⟨rfl, rfl⟩
 
 theorem step_restart_c (s : State) (f : Bool) : (step s (.restart f)).1.c = (loadHighest (newCtrl f) s.s).1 :=
   (restartStep_cs s f).1
